@@ -43,6 +43,7 @@ func usMember(lo uintSet64, hi []uintSet64, i uint) bool {
 // member as it was — in particular across the growth of hi.
 //
 //@ func (*uintSet).insert
+//@ noexec the `others` clause quantifies over 2^41 naturals
 //@ theory bv
 //@ property C08 C04 C20
 //@ requires s != nil && i < 1<<40
